@@ -202,6 +202,7 @@ extern "C" void harness_main() {
     if (d != nullptr) for (const auto u : d->List()) o += d->GetRS(u).alias + "=" + d->GetRS(u).definition + ";";
     return o;
   };
+  std::map<PictID, std::map<PictID, std::string>> seenParent;   // formal content of each parent when the child's stored result was computed
   std::vector<std::pair<PictID, int>> userAdditions;     // number of constituents the user added to a result
   for (int step = 0; step < K; ++step) {
     const int op = pick(6, "op");
@@ -240,6 +241,7 @@ extern "C" void harness_main() {
         if (oss.Ops().StatusOf(q) != ops::Status::done) return;
         hasResult.insert(q);
         const auto ps = oss.Graph().ParentsOf(q);
+        for (const auto parent : ps) seenParent[q][parent] = contentOf(parent);
         const auto* d1 = dynamic_cast<const RSForm*>(oss.Src().DataFor(ps[0]));
         const auto* d2 = dynamic_cast<const RSForm*>(oss.Src().DataFor(ps[1]));
         const auto* dr = dynamic_cast<const RSForm*>(oss.Src().DataFor(q));
@@ -266,7 +268,8 @@ extern "C" void harness_main() {
         if (unsaved.count(pid))
           for (const auto q : opsList) {
             const auto ps = oss.Graph().ParentsOf(q);
-            if (hasResult.count(q) && (ps[0] == pid || ps[1] == pid)) sym_assert(oss.Ops().StatusOf(q) != ops::Status::done, "child-of-operation-with-announced-user-edit-not-done");
+            // (a child computed AFTER the user's edit already saw that content: for it nothing has changed)
+            if (hasResult.count(q) && (ps[0] == pid || ps[1] == pid) && seenParent[q][pid] != now) sym_assert(oss.Ops().StatusOf(q) != ops::Status::done, "child-of-operation-with-announced-user-edit-not-done");
           }
         unsaved.erase(pid);
         lastContent[pid] = now;
